@@ -82,7 +82,7 @@ Qed.
 
 Section AuthProofs.
   Variable H : bytes -> Z -> bytes.
-  Variable oidc : bytes -> option bytes.
+  Variable oidc : bytes -> Z -> option bytes.
   Variable c : au_cfg.
 
   Notation step := (au_step H oidc c).
@@ -92,83 +92,83 @@ Section AuthProofs.
 
   (* ---- verifier vs. credential ------------------------------------------------------ *)
 
-  Lemma au_cred_login_rid l g : cred_login (au_login_with_rid l g) = cred_login l.
+  Lemma au_cred_login_rid now l g : cred_login now (au_login_with_rid l g) = cred_login now l.
   Proof. reflexivity. Qed.
 
-  (* the configured verifier accepts a login exactly when the credential was presented *)
-  Lemma au_verify_login_configured subj l :
-    (exists subj', au_verify_login H oidc c AuConfigured subj l = AuVOk subj') <-> cred_login l = true.
+  (* the configured verifier accepts a login exactly when the credential was presented (at that time) *)
+  Lemma au_verify_login_configured subj now l :
+    (exists subj', au_verify_login H oidc c AuConfigured subj now l = AuVOk subj') <-> cred_login now l = true.
   Proof.
     unfold au_verify_login, au_login_cred_ok, au_tok_verify_login, au_oidc_verify_login.
     destruct (ac_method c).
     - rewrite au_ct_eq_beq. destruct (bytes_eqb (al_key l) (au_key H (ac_token c) (al_ts l))); cbn;
         split; try eauto; try discriminate. intros [s E]. discriminate.
-    - destruct (oidc (al_key l)) as [sub|]; cbn.
+    - destruct (oidc (al_key l) now) as [sub|]; cbn.
       + split; [reflexivity|]. intros _. destruct (au_mem sub subj); cbn; eauto.
       + split; [intros [s E]; discriminate | discriminate].
   Qed.
 
-  Lemma au_verify_login_bad subj l :
-    cred_login l = false -> exists e, au_verify_login H oidc c AuConfigured subj l = AuVErr e.
+  Lemma au_verify_login_bad subj now l :
+    cred_login now l = false -> exists e, au_verify_login H oidc c AuConfigured subj now l = AuVErr e.
   Proof.
-    intros B. destruct (au_verify_login H oidc c AuConfigured subj l) as [s'|e] eqn:E; [|eauto].
-    assert (cred_login l = true) as T by (apply (au_verify_login_configured subj); eauto). congruence.
+    intros B. destruct (au_verify_login H oidc c AuConfigured subj now l) as [s'|e] eqn:E; [|eauto].
+    assert (cred_login now l = true) as T by (apply (au_verify_login_configured subj); eauto). congruence.
   Qed.
 
-  Lemma au_verify_ping_bad subj k ts :
-    au_has_scope AuScHeartBeats (ac_scopes c) = true -> cred_msg subj k ts = false ->
-    exists e, au_verify_ping H oidc c AuConfigured subj k ts = Some e.
+  Lemma au_verify_ping_bad subj now k ts :
+    au_has_scope AuScHeartBeats (ac_scopes c) = true -> cred_msg subj now k ts = false ->
+    exists e, au_verify_ping H oidc c AuConfigured subj now k ts = Some e.
   Proof.
     unfold au_verify_ping, au_msg_cred_ok, au_tok_verify_ping, au_oidc_verify_ping, au_oidc_post_login.
     intros S B. rewrite S. cbn. destruct (ac_method c).
     - rewrite au_ct_eq_beq, B. cbn. eauto.
-    - destruct (oidc k) as [sub|]; [rewrite B; cbn|]; eauto.
+    - destruct (oidc k now) as [sub|]; [rewrite B; cbn|]; eauto.
   Qed.
 
-  Lemma au_verify_ping_ok subj v k ts :
-    au_verify_ping H oidc c v subj k ts = None ->
-    v = AuAlwaysPass \/ au_has_scope AuScHeartBeats (ac_scopes c) = false \/ cred_msg subj k ts = true.
+  Lemma au_verify_ping_ok subj now v k ts :
+    au_verify_ping H oidc c v subj now k ts = None ->
+    v = AuAlwaysPass \/ au_has_scope AuScHeartBeats (ac_scopes c) = false \/ cred_msg subj now k ts = true.
   Proof.
     unfold au_verify_ping, au_msg_cred_ok, au_tok_verify_ping, au_oidc_verify_ping, au_oidc_post_login.
     destruct v; [|now left]. right.
     destruct (au_has_scope AuScHeartBeats (ac_scopes c)); [right|now left]. cbn in *.
     destruct (ac_method c).
     - rewrite au_ct_eq_beq in *. destruct (bytes_eqb k (au_key H (ac_token c) ts)); cbn in *; congruence.
-    - destruct (oidc k) as [sub|]; [|discriminate]. destruct (au_mem sub subj); cbn in *; congruence.
+    - destruct (oidc k now) as [sub|]; [|discriminate]. destruct (au_mem sub subj); cbn in *; congruence.
   Qed.
 
-  Lemma au_verify_workconn_bad subj k ts :
-    au_has_scope AuScNewWorkConns (ac_scopes c) = true -> cred_msg subj k ts = false ->
-    exists e, au_verify_workconn H oidc c AuConfigured subj k ts = Some e.
+  Lemma au_verify_workconn_bad subj now k ts :
+    au_has_scope AuScNewWorkConns (ac_scopes c) = true -> cred_msg subj now k ts = false ->
+    exists e, au_verify_workconn H oidc c AuConfigured subj now k ts = Some e.
   Proof.
     unfold au_verify_workconn, au_msg_cred_ok, au_tok_verify_workconn, au_oidc_verify_workconn, au_oidc_post_login.
     intros S B. rewrite S. cbn. destruct (ac_method c).
     - rewrite au_ct_eq_beq, B. cbn. eauto.
-    - destruct (oidc k) as [sub|]; [rewrite B; cbn|]; eauto.
+    - destruct (oidc k now) as [sub|]; [rewrite B; cbn|]; eauto.
   Qed.
 
-  Lemma au_verify_workconn_ok subj v k ts :
-    au_verify_workconn H oidc c v subj k ts = None ->
-    v = AuAlwaysPass \/ au_has_scope AuScNewWorkConns (ac_scopes c) = false \/ cred_msg subj k ts = true.
+  Lemma au_verify_workconn_ok subj now v k ts :
+    au_verify_workconn H oidc c v subj now k ts = None ->
+    v = AuAlwaysPass \/ au_has_scope AuScNewWorkConns (ac_scopes c) = false \/ cred_msg subj now k ts = true.
   Proof.
     unfold au_verify_workconn, au_msg_cred_ok, au_tok_verify_workconn, au_oidc_verify_workconn, au_oidc_post_login.
     destruct v; [|now left]. right.
     destruct (au_has_scope AuScNewWorkConns (ac_scopes c)); [right|now left]. cbn in *.
     destruct (ac_method c).
     - rewrite au_ct_eq_beq in *. destruct (bytes_eqb k (au_key H (ac_token c) ts)); cbn in *; congruence.
-    - destruct (oidc k) as [sub|]; [|discriminate]. destruct (au_mem sub subj); cbn in *; congruence.
+    - destruct (oidc k now) as [sub|]; [|discriminate]. destruct (au_mem sub subj); cbn in *; congruence.
   Qed.
 
   (* with a scope disabled the verifier accepts without looking at the key *)
-  Lemma au_scope_off_ping subj v k ts :
-    au_has_scope AuScHeartBeats (ac_scopes c) = false -> au_verify_ping H oidc c v subj k ts = None.
+  Lemma au_scope_off_ping subj now v k ts :
+    au_has_scope AuScHeartBeats (ac_scopes c) = false -> au_verify_ping H oidc c v subj now k ts = None.
   Proof.
     intros S. unfold au_verify_ping, au_tok_verify_ping, au_oidc_verify_ping. rewrite S.
     destruct v, (ac_method c); reflexivity.
   Qed.
 
-  Lemma au_scope_off_workconn subj v k ts :
-    au_has_scope AuScNewWorkConns (ac_scopes c) = false -> au_verify_workconn H oidc c v subj k ts = None.
+  Lemma au_scope_off_workconn subj now v k ts :
+    au_has_scope AuScNewWorkConns (ac_scopes c) = false -> au_verify_workconn H oidc c v subj now k ts = None.
   Proof.
     intros S. unfold au_verify_workconn, au_tok_verify_workconn, au_oidc_verify_workconn. rewrite S.
     destruct v, (ac_method c); reflexivity.
@@ -189,19 +189,19 @@ Section AuthProofs.
   (* a login without the credential, from a peer that cannot use the internal bypass, is refused
      in EVERY state and leaves it untouched *)
   Lemma au_bad_login_refused s internal conn now gen l :
-    cred_login l = false -> internal && asp_always_pass (al_spec l) = false ->
+    cred_login now l = false -> internal && asp_always_pass (al_spec l) = false ->
     exists e, step s (AuEFirst internal conn now gen (AuFLogin l)) = (s, AuORefused (AuRLogin e)).
   Proof.
     intros B NB. cbn.
     set (l' := au_effective_login l gen).
     assert (al_spec l' = al_spec l) as Es by (unfold l', au_effective_login; destruct (al_rid l); reflexivity).
-    assert (cred_login l' = false) as B' by (unfold l', au_effective_login; destruct (al_rid l); apply B).
+    assert (cred_login now l' = false) as B' by (unfold l', au_effective_login; destruct (al_rid l); apply B).
     rewrite Es. unfold au_choose_verifier. rewrite NB.
-    destruct (au_verify_login_bad (at_subjects s) l' B') as [e E]. rewrite E. eauto.
+    destruct (au_verify_login_bad (at_subjects s) now l' B') as [e E]. rewrite E. eauto.
   Qed.
 
   Lemma au_network_login_refused s conn now gen l :
-    cred_login l = false ->
+    cred_login now l = false ->
     exists e, step s (AuEFirst false conn now gen (AuFLogin l)) = (s, AuORefused (AuRLogin e)).
   Proof. intros B. now apply au_bad_login_refused. Qed.
 
@@ -216,16 +216,17 @@ Section AuthProofs.
     au_is_refusal (snd (step s e)) = true -> fst (step s e) = s.
   Proof.
     destruct e as [internal conn now gen m | sid now m | sid | now]; cbn.
-    - destruct m as [l | rid key ts | rid vm_ok | ty]; cbn.
-      + destruct (au_verify_login _ _ _ _ _ _); cbn; [discriminate | reflexivity].
+    - destruct m as [l | rid key ts plug | rid vm_ok | ty]; cbn.
+      + destruct (au_verify_login _ _ _ _ _ _ _); cbn; [discriminate | reflexivity].
       + destruct (au_find_rid rid (at_sessions s)) as [x|]; cbn; [|reflexivity].
-        destruct (au_verify_workconn _ _ _ _ _ _ _); cbn; [reflexivity|].
+        destruct (au_plug_apply plug key ts) as [[k' t']|]; cbn; [|reflexivity].
+        destruct (au_verify_workconn _ _ _ _ _ _ _ _); cbn; [reflexivity|].
         destruct (_ <? _); cbn; [discriminate | reflexivity].
       + destruct rid as [|b r]; [|destruct (au_find_rid (b :: r) (at_sessions s))]; destruct vm_ok; reflexivity.
       + reflexivity.
     - destruct (au_find_sid sid (at_sessions s)) as [x|]; cbn; [|reflexivity].
       destruct m as [key ts | name cfg_ok run_ok | name | ty]; cbn.
-      + destruct (au_verify_ping _ _ _ _ _ _ _); cbn; [reflexivity | discriminate].
+      + destruct (au_verify_ping _ _ _ _ _ _ _ _); cbn; [reflexivity | discriminate].
       + destruct cfg_ok; cbn; [|reflexivity].
         destruct (au_pxy_exists name (at_pxys s)); cbn; [reflexivity|].
         destruct run_ok; cbn; [discriminate | reflexivity].
@@ -257,27 +258,37 @@ Section AuthProofs.
   Lemma au_bad_ping_no_refresh s sid now key ts x :
     au_has_scope AuScHeartBeats (ac_scopes c) = true ->
     au_find_sid sid (at_sessions s) = Some x -> as_verifier x = AuConfigured ->
-    cred_msg (at_subjects s) key ts = false ->
+    cred_msg (at_subjects s) now key ts = false ->
     exists e, step s (AuELater sid now (AuLPing key ts)) = (s, AuOPongErr e).
   Proof.
     intros S F V B. cbn. rewrite F. cbn. rewrite V.
-    destruct (au_verify_ping_bad (at_subjects s) key ts S B) as [e E]. rewrite E. eauto.
+    destruct (au_verify_ping_bad (at_subjects s) now key ts S B) as [e E]. rewrite E. eauto.
   Qed.
 
-  Lemma au_workconn_unknown_refused s internal conn now gen rid key ts :
+  Lemma au_workconn_unknown_refused s internal conn now gen rid key ts plug :
     au_find_rid rid (at_sessions s) = None ->
-    step s (AuEFirst internal conn now gen (AuFWorkConn rid key ts)) = (s, AuORefused AuRWorkUnknownRun).
+    step s (AuEFirst internal conn now gen (AuFWorkConn rid key ts plug)) = (s, AuORefused AuRWorkUnknownRun).
   Proof. intros F. cbn. now rewrite F. Qed.
 
-  Lemma au_bad_workconn_refused s internal conn now gen rid key ts x :
+  (* the plugin chain refusing (or failing) refuses the work connection *)
+  Lemma au_workconn_plugin_reject_refused s internal conn now gen rid key ts plug x :
+    au_find_rid rid (at_sessions s) = Some x -> au_plug_apply plug key ts = None ->
+    step s (AuEFirst internal conn now gen (AuFWorkConn rid key ts plug)) = (s, AuORefused AuRWorkPlugin).
+  Proof. intros F P. cbn. now rewrite F, P. Qed.
+
+  (* verification applies to what the plugin chain returns: if THAT lacks the credential the
+     connection is refused, whatever the peer originally sent *)
+  Lemma au_bad_workconn_refused s internal conn now gen rid key ts plug key' ts' x :
     au_has_scope AuScNewWorkConns (ac_scopes c) = true ->
     au_find_rid rid (at_sessions s) = Some x -> as_verifier x = AuConfigured ->
-    cred_msg (at_subjects s) key ts = false ->
-    exists e, step s (AuEFirst internal conn now gen (AuFWorkConn rid key ts)) = (s, AuORefused (AuRWorkAuth e)).
+    au_plug_apply plug key ts = Some (key', ts') ->
+    cred_msg (at_subjects s) now key' ts' = false ->
+    exists e, step s (AuEFirst internal conn now gen (AuFWorkConn rid key ts plug)) = (s, AuORefused (AuRWorkAuth e)).
   Proof.
-    intros S F V B. cbn. rewrite F, V.
-    destruct (au_verify_workconn_bad (at_subjects s) key ts S B) as [e E]. rewrite E. eauto.
+    intros S F V P B. cbn. rewrite F, P, V.
+    destruct (au_verify_workconn_bad (at_subjects s) now key' ts' S B) as [e E]. rewrite E. eauto.
   Qed.
+
   (* ---- where the sessions of the next state come from ------------------------------------ *)
 
   Notation sessions := at_sessions.
@@ -342,12 +353,13 @@ Section AuthProofs.
   | AuKept : In y (sessions s) -> au_origin s e y
   | AuPinged x sid now key ts :
       e = AuELater sid now (AuLPing key ts) -> au_find_sid sid (sessions s) = Some x ->
-      au_verify_ping H oidc c (as_verifier x) (at_subjects s) key ts = None ->
+      au_verify_ping H oidc c (as_verifier x) (at_subjects s) now key ts = None ->
       y = au_upd_ping x now -> au_origin s e y
-  | AuPooled x internal conn now gen rid key ts :
-      e = AuEFirst internal conn now gen (AuFWorkConn rid key ts) ->
+  | AuPooled x internal conn now gen rid key0 ts0 plug key ts :
+      e = AuEFirst internal conn now gen (AuFWorkConn rid key0 ts0 plug) ->
       au_find_rid rid (sessions s) = Some x ->
-      au_verify_workconn H oidc c (as_verifier x) (at_subjects s) key ts = None ->
+      au_plug_apply plug key0 ts0 = Some (key, ts) ->
+      au_verify_workconn H oidc c (as_verifier x) (at_subjects s) now key ts = None ->
       y = au_upd_pool x (as_pool x ++ [conn]) -> au_origin s e y
   | AuProxied x sid now m p :
       e = AuELater sid now m -> au_find_sid sid (sessions s) = Some x ->
@@ -356,7 +368,7 @@ Section AuthProofs.
   | AuLoggedIn internal conn now gen l0 subj :
       e = AuEFirst internal conn now gen (AuFLogin l0) ->
       au_verify_login H oidc c (au_choose_verifier internal (al_spec (au_effective_login l0 gen)))
-                      (at_subjects s) (au_effective_login l0 gen) = AuVOk subj ->
+                      (at_subjects s) now (au_effective_login l0 gen) = AuVOk subj ->
       y = {| as_sid := at_next s; as_rid := al_rid (au_effective_login l0 gen);
              as_login := au_effective_login l0 gen; as_internal := internal;
              as_verifier := au_choose_verifier internal (al_spec (au_effective_login l0 gen));
@@ -367,22 +379,23 @@ Section AuthProofs.
   Lemma au_origin_step s e y : In y (sessions (fst (step s e))) -> au_origin s e y.
   Proof.
     destruct e as [internal conn now gen m | sid now m | sid | now]; cbn.
-    - destruct m as [l0 | rid key ts | rid vm_ok | ty]; cbn.
-      + destruct (au_verify_login _ _ _ _ _ _) as [subj|err] eqn:V; cbn; [|now constructor].
+    - destruct m as [l0 | rid key0 ts0 plug | rid vm_ok | ty]; cbn.
+      + destruct (au_verify_login _ _ _ _ _ _ _) as [subj|err] eqn:V; cbn; [|now constructor].
         intros [<-|I].
         * eapply AuLoggedIn; [reflexivity | exact V | reflexivity].
         * apply AuKept. destruct (au_find_rid _ (sessions s)) as [old|]; [|assumption].
           cbn in I. now apply au_in_drop_sid in I.
       + destruct (au_find_rid rid (sessions s)) as [x|] eqn:F; cbn; [|now constructor].
-        destruct (au_verify_workconn _ _ _ _ _ _ _) eqn:V; cbn; [now constructor|].
+        destruct (au_plug_apply plug key0 ts0) as [[key ts]|] eqn:P; cbn; [|now constructor].
+        destruct (au_verify_workconn _ _ _ _ _ _ _ _) eqn:V; cbn; [now constructor|].
         destruct (_ <? _); cbn; [|now constructor].
         intros I. apply au_in_set_session in I as [I|[-> _]]; [now constructor|].
-        eapply AuPooled; [reflexivity | exact F | exact V | reflexivity].
+        eapply AuPooled; [reflexivity | exact F | exact P | exact V | reflexivity].
       + destruct rid as [|b r]; [|destruct (au_find_rid (b :: r) (sessions s))]; destruct vm_ok; now constructor.
       + now constructor.
     - destruct (au_find_sid sid (sessions s)) as [x|] eqn:F; cbn; [|now constructor].
       destruct m as [key ts | name cfg_ok run_ok | name | ty]; cbn.
-      + destruct (au_verify_ping _ _ _ _ _ _ _) eqn:V; cbn; [now constructor|].
+      + destruct (au_verify_ping _ _ _ _ _ _ _ _) eqn:V; cbn; [now constructor|].
         intros I. apply au_in_set_session in I as [I|[-> _]]; [now constructor|].
         eapply AuPinged; [reflexivity | exact F | exact V | reflexivity].
       + destruct cfg_ok; cbn; [|now constructor].
@@ -408,7 +421,7 @@ Section AuthProofs.
     forall y, In y (sessions (fst (step s e))) -> verified y.
   Proof.
     intros A y I. apply au_origin_step in I.
-    destruct I as [I | x sid now key ts _ F _ -> | x internal conn now gen rid key ts _ F _ ->
+    destruct I as [I | x sid now key ts _ F _ -> | x internal conn now gen rid key0 ts0 plug key ts _ F _ _ ->
                    | x sid now m p _ F _ -> | internal conn now gen l0 subj _ V ->].
     - now apply A.
     - apply au_find_sid_some in F as [I _]. exact (A x I).
@@ -416,7 +429,7 @@ Section AuthProofs.
     - apply au_find_sid_some in F as [I _]. exact (A x I).
     - unfold au_session_verified. cbn. split; [reflexivity|]. split; [reflexivity|].
       destruct (au_choose_verifier internal (al_spec (au_effective_login l0 gen))) eqn:Cv.
-      + left. split; [reflexivity|]. apply (au_verify_login_configured (at_subjects s)). eauto.
+      + left. split; [reflexivity|]. exists now. apply (au_verify_login_configured (at_subjects s)). eauto.
       + right. apply au_choose_pass_iff in Cv. tauto.
   Qed.
 
@@ -527,8 +540,8 @@ Section AuthProofs.
   Lemma au_wf_step s e : au_wf s -> au_wf (fst (step s e)).
   Proof.
     intros W. destruct e as [internal conn now gen m | sid now m | sid | now]; cbn.
-    - destruct m as [l0 | rid key ts | rid vm_ok | ty]; cbn.
-      + destruct (au_verify_login _ _ _ _ _ _) as [subj|err] eqn:V; cbn; [|assumption].
+    - destruct m as [l0 | rid key ts plug | rid vm_ok | ty]; cbn.
+      + destruct (au_verify_login _ _ _ _ _ _ _) as [subj|err] eqn:V; cbn; [|assumption].
         set (l := au_effective_login l0 gen).
         assert (exists s1, s1 = match au_find_rid (al_rid l) (sessions s) with Some old => au_teardown s old | None => s end
                            /\ au_wf s1 /\ at_next s1 = at_next s /\
@@ -549,7 +562,8 @@ Section AuthProofs.
           apply Sub in Iy as [_ Ny]. now apply Ny.
         * intros n sid I. destruct (P1 n sid I) as (y & Iy & Ey & Ny). exists y. repeat split; try assumption. now right.
       + destruct (au_find_rid rid (sessions s)) as [x|] eqn:F; cbn; [|assumption].
-        destruct (au_verify_workconn _ _ _ _ _ _ _); cbn; [assumption|].
+        destruct (au_plug_apply plug key ts) as [[key' ts']|]; cbn; [|assumption].
+        destruct (au_verify_workconn _ _ _ _ _ _ _ _); cbn; [assumption|].
         destruct (_ <? _); cbn; [|assumption].
         apply au_find_rid_some in F as [I _].
         apply (au_wf_update s x); try assumption; try reflexivity.
@@ -564,7 +578,7 @@ Section AuthProofs.
       { intros n In_. destruct W as (Nd & _ & _ & P). destruct (P n _ In_) as (y & Iy & Ey & Ny).
         now rewrite <- (au_nodup_map_inj as_sid (sessions s) y x Nd Iy I Ey). }
       destruct m as [key ts | name cfg_ok run_ok | name | ty]; cbn.
-      + destruct (au_verify_ping _ _ _ _ _ _ _); cbn; [assumption|].
+      + destruct (au_verify_ping _ _ _ _ _ _ _ _); cbn; [assumption|].
         apply (au_wf_update s x); try assumption; try reflexivity.
         intros n sid' In_. left. split; [assumption|]. intros ->. cbn. now apply Own.
       + destruct cfg_ok; cbn; [|assumption].
@@ -625,15 +639,16 @@ Section AuthProofs.
   Proof.
     intros W I A. pose proof W as (N & B & R & P).
     destruct e as [internal conn now gen m | sid now m | sid | now]; cbn in *.
-    - destruct m as [l0 | rid key ts | rid vm_ok | ty]; cbn.
-      + destruct (au_verify_login _ _ _ _ _ _) as [subj|err]; cbn; [|assumption]. right.
+    - destruct m as [l0 | rid key ts plug | rid vm_ok | ty]; cbn.
+      + destruct (au_verify_login _ _ _ _ _ _ _) as [subj|err]; cbn; [|assumption]. right.
         destruct (au_find_rid _ (sessions s)) as [old|] eqn:F; [|assumption]. cbn.
         apply au_in_drop_sid. split; [assumption|]. intros Es.
         apply au_find_rid_some in F as [Io Er].
         assert (x = old) as -> by now apply (au_nodup_map_inj as_sid (sessions s)).
         apply au_beq_false in A. congruence.
       + destruct (au_find_rid rid (sessions s)) as [x0|] eqn:F; cbn; [|assumption].
-        destruct (au_verify_workconn _ _ _ _ _ _ _); cbn; [assumption|].
+        destruct (au_plug_apply plug key ts) as [[key' ts']|]; cbn; [|assumption].
+        destruct (au_verify_workconn _ _ _ _ _ _ _ _); cbn; [assumption|].
         destruct (_ <? _); cbn; [|assumption].
         apply au_in_set_session_other; [assumption|]. cbn. intros Es.
         apply au_find_rid_some in F as [Io Er].
@@ -645,7 +660,7 @@ Section AuthProofs.
       apply au_find_sid_some in F as [Io Es].
       assert (as_sid x <> as_sid x0) as Ne by lia.
       destruct m as [key ts | name cfg_ok run_ok | name | ty]; cbn.
-      + destruct (au_verify_ping _ _ _ _ _ _ _); cbn; [assumption|]. now apply au_in_set_session_other.
+      + destruct (au_verify_ping _ _ _ _ _ _ _ _); cbn; [assumption|]. now apply au_in_set_session_other.
       + destruct cfg_ok; cbn; [|assumption].
         destruct (au_pxy_exists name (at_pxys s)); cbn; [assumption|].
         destruct run_ok; cbn; [|assumption]. now apply au_in_set_session_other.
@@ -674,10 +689,10 @@ Section AuthProofs.
     as_last_ping x' <> as_last_ping x ->
     exists now key ts, e = AuELater (as_sid x) now (AuLPing key ts) /\ as_last_ping x' = now /\
       (as_verifier x = AuAlwaysPass \/ au_has_scope AuScHeartBeats (ac_scopes c) = false \/
-       cred_msg (at_subjects s) key ts = true).
+       cred_msg (at_subjects s) now key ts = true).
   Proof.
     intros (N & B & R & P) I I' Es Nl. apply au_origin_step in I'.
-    destruct I' as [Ik | x0 sid now key ts -> F V -> | x0 internal conn now gen rid key ts _ F _ ->
+    destruct I' as [Ik | x0 sid now key ts -> F V -> | x0 internal conn now gen rid key0 ts0 plug key ts _ F _ _ ->
                    | x0 sid now m p _ F _ -> | internal conn now gen l0 subj _ V ->].
     - exfalso. apply Nl. f_equal. now apply (au_nodup_map_inj as_sid (sessions s)).
     - apply au_find_sid_some in F as [I0 E0]. cbn in *.
@@ -695,18 +710,20 @@ Section AuthProofs.
     as_sid x' = as_sid x -> as_last_ping x' <> as_last_ping x ->
     exists now key ts, e = AuELater (as_sid x) now (AuLPing key ts) /\ as_last_ping x' = now /\
       (as_verifier x = AuAlwaysPass \/ au_has_scope AuScHeartBeats (ac_scopes c) = false \/
-       cred_msg (at_subjects (run evs au_init)) key ts = true).
+       cred_msg (at_subjects (run evs au_init)) now key ts = true).
   Proof. rewrite au_run_snoc. apply au_ping_converse_wf. apply au_wf_run. Qed.
 
   Lemma au_pool_converse_wf s e x x' cn :
     au_wf s -> In x (sessions s) -> In x' (sessions (fst (step s e))) -> as_sid x' = as_sid x ->
     In cn (as_pool x') -> ~ In cn (as_pool x) ->
-    exists internal now gen key ts, e = AuEFirst internal cn now gen (AuFWorkConn (as_rid x) key ts) /\
+    exists internal now gen key0 ts0 plug key ts,
+      e = AuEFirst internal cn now gen (AuFWorkConn (as_rid x) key0 ts0 plug) /\
+      au_plug_apply plug key0 ts0 = Some (key, ts) /\
       (as_verifier x = AuAlwaysPass \/ au_has_scope AuScNewWorkConns (ac_scopes c) = false \/
-       cred_msg (at_subjects s) key ts = true).
+       cred_msg (at_subjects s) now key ts = true).
   Proof.
     intros (N & B & R & P) I I' Es Ic Nc. apply au_origin_step in I'.
-    destruct I' as [Ik | x0 sid now key ts _ F _ -> | x0 internal conn now gen rid key ts -> F V ->
+    destruct I' as [Ik | x0 sid now key ts _ F _ -> | x0 internal conn now gen rid key0 ts0 plug key ts -> F Pl V ->
                    | x0 sid now m p _ F _ -> | internal conn now gen l0 subj _ V ->].
     - exfalso. apply Nc. now rewrite <- (au_nodup_map_inj as_sid (sessions s) x' x N Ik I Es).
     - exfalso. apply au_find_sid_some in F as [I0 _]. cbn in *.
@@ -714,7 +731,7 @@ Section AuthProofs.
     - apply au_find_rid_some in F as [I0 Er]. cbn in *.
       assert (x0 = x) as -> by now apply (au_nodup_map_inj as_sid (sessions s)).
       apply in_app_iff in Ic as [Ic|[<-|[]]]; [contradiction|].
-      exists internal, now, gen, key, ts. split; [congruence | now apply au_verify_workconn_ok].
+      exists internal, now, gen, key0, ts0, plug, key, ts. split; [congruence|]. split; [exact Pl|]. now apply au_verify_workconn_ok.
     - exfalso. apply au_find_sid_some in F as [I0 _]. cbn in *.
       assert (x0 = x) as -> by now apply (au_nodup_map_inj as_sid (sessions s)). now apply Nc.
     - cbn in Ic. contradiction.
@@ -723,9 +740,11 @@ Section AuthProofs.
   Theorem au_workconn_pooled_implies_known_and_valid evs e x x' cn :
     In x (sessions (run evs au_init)) -> In x' (sessions (run (evs ++ [e]) au_init)) ->
     as_sid x' = as_sid x -> In cn (as_pool x') -> ~ In cn (as_pool x) ->
-    exists internal now gen key ts, e = AuEFirst internal cn now gen (AuFWorkConn (as_rid x) key ts) /\
+    exists internal now gen key0 ts0 plug key ts,
+      e = AuEFirst internal cn now gen (AuFWorkConn (as_rid x) key0 ts0 plug) /\
+      au_plug_apply plug key0 ts0 = Some (key, ts) /\
       (as_verifier x = AuAlwaysPass \/ au_has_scope AuScNewWorkConns (ac_scopes c) = false \/
-       cred_msg (at_subjects (run evs au_init)) key ts = true).
+       cred_msg (at_subjects (run evs au_init)) now key ts = true).
   Proof. rewrite au_run_snoc. apply au_pool_converse_wf. apply au_wf_run. Qed.
 
   (* a brand-new session has an empty pool and no proxies: nothing is pooled or registered "in advance" *)
@@ -735,7 +754,7 @@ Section AuthProofs.
     exists internal conn now gen l0, e = AuEFirst internal conn now gen (AuFLogin l0).
   Proof.
     intros W I' Fresh. apply au_origin_step in I'.
-    destruct I' as [Ik | x0 sid now key ts _ F _ -> | x0 internal conn now gen rid key ts _ F _ ->
+    destruct I' as [Ik | x0 sid now key ts _ F _ -> | x0 internal conn now gen rid key0 ts0 plug key ts _ F _ _ ->
                    | x0 sid now m p _ F _ -> | internal conn now gen l0 subj -> V ->].
     - exfalso. now apply (Fresh y).
     - exfalso. apply au_find_sid_some in F as [I0 _]. now apply (Fresh x0).
@@ -751,28 +770,31 @@ Section AuthProofs.
     exists internal conn now gen l0,
       In (AuEFirst internal conn now gen (AuFLogin l0)) evs /\
       as_login x = au_effective_login l0 gen /\ as_internal x = internal /\
-      (cred_login l0 = true \/ (internal = true /\ asp_always_pass (al_spec l0) = true)).
+      (cred_login now l0 = true \/ (internal = true /\ asp_always_pass (al_spec l0) = true)).
   Proof.
     revert x. induction evs as [|e evs IH] using rev_ind; [cbn; tauto|].
-    intros y I. pose proof (au_session_implies_verified _ _ I) as Vy.
+    intros y I.
     rewrite au_run_snoc in I. apply au_origin_step in I.
     assert (forall x0, In x0 (sessions (run evs au_init)) -> as_login y = as_login x0 -> as_internal y = as_internal x0 ->
             exists internal conn now gen l0,
               In (AuEFirst internal conn now gen (AuFLogin l0)) (evs ++ [e]) /\
               as_login y = au_effective_login l0 gen /\ as_internal y = internal /\
-              (cred_login l0 = true \/ (internal = true /\ asp_always_pass (al_spec l0) = true))) as Old.
+              (cred_login now l0 = true \/ (internal = true /\ asp_always_pass (al_spec l0) = true))) as Old.
     { intros x0 I0 El Ei. destruct (IH x0 I0) as (i & cn & nw & g & l0 & Ie & E1 & E2 & Cr).
       exists i, cn, nw, g, l0. repeat split; try congruence. apply in_app_iff. now left. }
-    destruct I as [Ik | x0 sid now key ts _ F _ -> | x0 internal conn now gen rid key ts _ F _ ->
+    destruct I as [Ik | x0 sid now key ts _ F _ -> | x0 internal conn now gen rid key0 ts0 plug key ts _ F _ _ ->
                    | x0 sid now m p _ F _ -> | internal conn now gen l0 subj -> V ->].
     - now apply (Old y).
     - apply au_find_sid_some in F as [I0 _]. now apply (Old x0).
     - apply au_find_rid_some in F as [I0 _]. now apply (Old x0).
     - apply au_find_sid_some in F as [I0 _]. now apply (Old x0).
     - exists internal, conn, now, gen, l0. cbn. repeat split; [apply in_app_iff; right; now left|].
-      destruct Vy as (_ & _ & [[_ Cr]|[_ [Ei Ep]]]); cbn in *.
-      + left. unfold au_effective_login in Cr. destruct (al_rid l0); exact Cr.
-      + right. split; [assumption|]. unfold au_effective_login in Ep. destruct (al_rid l0); exact Ep.
+      destruct (au_choose_verifier internal (al_spec (au_effective_login l0 gen))) eqn:Cv.
+      + left. assert (cred_login now (au_effective_login l0 gen) = true) as Cr
+          by (apply (au_verify_login_configured (at_subjects (run evs au_init))); eauto).
+        unfold au_effective_login in Cr. destruct (al_rid l0); exact Cr.
+      + right. apply au_choose_pass_iff in Cv as [Ei Ep]. split; [assumption|].
+        unfold au_effective_login in Ep. destruct (al_rid l0); exact Ep.
   Qed.
 
   (* ---- heartbeats without the credential do not keep a session alive ------------------------------------------ *)
@@ -781,7 +803,7 @@ Section AuthProofs.
     au_has_scope AuScHeartBeats (ac_scopes c) = true ->
     au_find_sid (as_sid x) (sessions s) = Some x -> as_verifier x = AuConfigured ->
     Forall (fun e => exists now' k ts, e = AuELater (as_sid x) now' (AuLPing k ts) /\
-                                       cred_msg (at_subjects s) k ts = false) pings ->
+                                       cred_msg (at_subjects s) now' k ts = false) pings ->
     au_hb_expired c now x = true ->
     forall y, In y (sessions (run (pings ++ [AuECheck now]) s)) -> as_sid y <> as_sid x.
   Proof.
